@@ -15,7 +15,7 @@ from ..cfg import CFG, EXIT
 from ..core import Ctx
 from ..model import AnalysisError, FuncInfo, dotted, kwarg, norm, walk_no_nested
 from ..zones import ZUnsupported, box_contains, nonneg, pair_domain, range_bounds, to_lin
-from .common import assigned_value, conditions_at, enclosing, expand_locals, is_cmp, stores_to
+from .common import assigned_value, conditions_at, enclosing, expand_locals, flat_subscript, is_cmp, stores_to, subst_views, view_env
 
 CAND = "AbstractDissimilarity._get_all_valid_alignments"
 PAIRK = "AbstractDissimilarity._compute_alignment_disorders"
@@ -130,10 +130,25 @@ def check_pair_kernel(ctx: Ctx, rules: Dict[str, str]):
         return _pair_kernel_counting_shape(ctx, k, f, L0, Li, Lj, rows, p_arr, p_dmat, p_delta, n_name, u, res)
     def pure_local(x) -> bool:
         return isinstance(x, ast.Assign) and len(x.targets) == 1 and isinstance(x.targets[0], ast.Name) and \
-            all(isinstance(y, (ast.Name, ast.Subscript, ast.Constant, ast.Tuple, ast.Load, ast.Store, ast.UnaryOp, ast.USub, ast.Slice)) for y in ast.walk(x.value))
+            all(isinstance(y, (ast.Name, ast.Subscript, ast.Constant, ast.Tuple, ast.Load, ast.Store, ast.UnaryOp, ast.USub, ast.Slice, ast.Compare, ast.Eq,
+                               ast.NotEq)) for y in ast.walk(x.value))
     if not all(x is Lj or pure_local(x) for x in Li.body):
         return k.undecided("pair-loops", Li, "statements besides the inner pair loop: kernel shape not recognised (not a verdict)")
-    extra = [x for x in L0.body if x is not Li and not pure_local(x) and not (isinstance(x, ast.AugAssign) and isinstance(x.op, ast.Div))]
+    # the pair sum may be accumulated in a local that starts at 0 for each unitary alignment and is stored into the result cell afterwards
+    def zero_value(v) -> bool:
+        if A_const(v) == 0:
+            return True
+        return isinstance(v, ast.Call) and norm(v.func) in ("np.float32", "np.float64", "float") and len(v.args) == 1 and A_const(v.args[0]) == 0
+    acc_name = None
+    acc_stmts: list = []
+    for x in L0.body:
+        if isinstance(x, ast.Assign) and len(x.targets) == 1 and isinstance(x.targets[0], ast.Name) and zero_value(x.value) and L0.body.index(x) < L0.body.index(Li):
+            fin = [y for y in L0.body[L0.body.index(Li) + 1:] if isinstance(y, (ast.Assign, ast.AugAssign)) and
+                   norm(y.targets[0] if isinstance(y, ast.Assign) else y.target) == f"{res}[{L0.target.id if isinstance(L0.target, ast.Name) else '?'}]" and
+                   isinstance(y.value, ast.Name) and y.value.id == x.targets[0].id and (isinstance(y, ast.Assign) or isinstance(y.op, ast.Add))]
+            if len(fin) == 1 and len(stores_to(f.node, x.targets[0].id)) >= 1:
+                acc_name, acc_stmts = x.targets[0].id, [x, fin[0]]
+    extra = [x for x in L0.body if x is not Li and x not in acc_stmts and not pure_local(x) and not (isinstance(x, ast.AugAssign) and isinstance(x.op, ast.Div))]
     if extra:
         return k.undecided("pair-loops", extra[0], "statements besides the pair loops in the per-alignment body: kernel shape not recognised (not a verdict)")
     try:
@@ -182,6 +197,8 @@ def check_pair_kernel(ctx: Ctx, rules: Dict[str, str]):
     sentinels = set()
 
     def truth(t: ast.AST, env, empty: Dict[str, bool]) -> bool:
+        if isinstance(t, ast.Name) and t.id in env:
+            return truth(env[t.id], env, empty)         # a boolean local: `unit_i_is_empty = unit_i[3] == -1`
         if isinstance(t, ast.BoolOp):
             vals = [truth(v, env, empty) for v in t.values]
             return any(vals) if isinstance(t.op, ast.Or) else all(vals)
@@ -204,7 +221,9 @@ def check_pair_kernel(ctx: Ctx, rules: Dict[str, str]):
         for st in stmts:
             if pure_local(st):
                 env[st.targets[0].id] = _Subst(env).visit(_copy.deepcopy(st.value))
-            elif isinstance(st, ast.AugAssign) and isinstance(st.op, ast.Add) and canon_ref(st.target, env) in (f"{res}[{u}]",):
+            elif isinstance(st, ast.AugAssign) and isinstance(st.op, ast.Add) and (
+                    (acc_name is None and canon_ref(st.target, env) == f"{res}[{u}]") or
+                    (acc_name is not None and isinstance(st.target, ast.Name) and st.target.id == acc_name)):
                 v = st.value
                 if isinstance(v, ast.Call) and not v.keywords:
                     added.append((f"{canon_ref(v.func, env)}({', '.join(sorted(canon_ref(a, env) for a in v.args))})", st))
@@ -566,23 +585,35 @@ def check_candidates(ctx: Ctx, rules: Dict[str, str]):
         return
     # ---- sizes
     sizes_null = sizes = None
+    venv = view_env(f.node)
     for L in [s for s in body if isinstance(s, ast.For)]:
+        # for a in range(n): ...   or   for a, units_a in enumerate(unit_arrays): ...
+        if isinstance(L.target, ast.Name):
+            a = L.target.id
+        elif isinstance(L.target, ast.Tuple) and len(L.target.elts) == 2 and isinstance(L.target.elts[0], ast.Name) and isinstance(L.iter, ast.Call) \
+                and dotted(L.iter.func) == "enumerate" and len(L.iter.args) == 1 and norm(L.iter.args[0]) == p_units:
+            a = L.target.elts[0].id
+        else:
+            continue
         for s in L.body:
-            if isinstance(s, ast.Assign) and isinstance(s.targets[0], ast.Subscript) and isinstance(L.target, ast.Name):
-                a = L.target.id
+            if isinstance(s, ast.Assign) and isinstance(s.targets[0], ast.Subscript):
                 tn = norm(s.targets[0])
-                sv = norm(expand_locals(f.node, s.value, skip=(n_name, c2n_name)))
+                sv = norm(subst_views(expand_locals(f.node, s.value, skip=(n_name, c2n_name)), venv))
                 if sv in (f"len({p_units}[{a}]) + 1", f"1 + len({p_units}[{a}])") and tn.endswith(f"[{a}]"):
                     sizes_null = (norm(s.targets[0].value), L, s)
                 if sv == f"len({p_units}[{a}])" and tn.endswith(f"[{a}]"):
                     sizes = (norm(s.targets[0].value), L, s)
     ok_sz = False
     if sizes_null:
-        try:
-            lo, hi = range_bounds(sizes_null[1].iter)
-            ok_sz = lo == Lin.num(0) and hi == Lin.atom(n_name)
-        except ZUnsupported:
-            pass
+        it_ = sizes_null[1].iter
+        if isinstance(it_, ast.Call) and dotted(it_.func) == "enumerate" and len(it_.args) == 1 and norm(it_.args[0]) == p_units:
+            ok_sz = True                # one iteration per annotator's array
+        else:
+            try:
+                lo, hi = range_bounds(it_)
+                ok_sz = lo == Lin.num(0) and hi in (Lin.atom(n_name), Lin.atom(f"len({p_units})"))
+            except ZUnsupported:
+                pass
     k.check("sizes-with-null", ok_sz, sizes_null[2] if sizes_null else None,
             "every annotator gets the index range 0..len(units): one extra index for the empty unit",
             "sizes_with_null[a] is not len(units of a) + 1 for every annotator: the empty unit (or a real one) is not enumerable")
@@ -703,6 +734,15 @@ def check_candidates(ctx: Ctx, rules: Dict[str, str]):
     _check_final(ctx, k, f, ML, c2n_name, n_name)
 
 
+def _index_nodes(t: ast.Subscript, base: str):
+    """(row, col) index nodes of `base[r, c]` / `base[r][c]`, else None"""
+    if isinstance(t.slice, ast.Tuple) and len(t.slice.elts) == 2 and norm(t.value) == base:
+        return t.slice.elts[0], t.slice.elts[1]
+    if isinstance(t.value, ast.Subscript) and norm(t.value.value) == base and not isinstance(t.value.slice, ast.Tuple) and not isinstance(t.slice, ast.Tuple):
+        return t.value.slice, t.slice
+    return None
+
+
 def _check_matrices(ctx, k: K, f: FuncInfo, pre: str, p_units, p_dmat, p_delta, n_name, sizes_name, facts):
     body = f.node.body
     outer = None
@@ -796,9 +836,8 @@ def _check_matrices(ctx, k: K, f: FuncInfo, pre: str, p_units, p_dmat, p_delta, 
                 if lo2 is None or hi2 is None:
                     continue
                 visit(s.body, dict(loops, **{s.target.id: (lo2, hi2)}))
-            elif isinstance(s, ast.Assign) and isinstance(s.targets[0], ast.Subscript) and norm(s.targets[0].value) == mat \
-                    and isinstance(s.targets[0].slice, ast.Tuple) and len(s.targets[0].slice.elts) == 2:
-                r, c = s.targets[0].slice.elts
+            elif isinstance(s, ast.Assign) and isinstance(s.targets[0], ast.Subscript) and _index_nodes(s.targets[0], mat) is not None:
+                r, c = _index_nodes(s.targets[0], mat)
                 iv = []
                 for axis, e in enumerate((r, c)):
                     if isinstance(e, ast.Name) and e.id in loops:
@@ -901,6 +940,17 @@ def _check_append(ctx, k: K, f: FuncInfo, ML: ast.For, FI: ast.If, body: List[as
                        "(numba does not bounds-check: silent memory corruption)")
     G = gif[0]
     t = G.test
+    growth_body = G.body
+    if len(G.body) == 1 and isinstance(G.body[0], ast.Continue) and not G.orelse:
+        # guard clause: `if index != capacity: continue` followed by the growth statements
+        growth_body = body[body.index(G) + 1:]
+        if isinstance(t, ast.UnaryOp) and isinstance(t.op, ast.Not):
+            t = t.operand
+        elif isinstance(t, ast.Compare) and len(t.ops) == 1 and type(t.ops[0]) in (ast.NotEq, ast.Lt, ast.Gt):
+            inv = {ast.NotEq: ast.Eq, ast.Lt: ast.GtE, ast.Gt: ast.LtE}
+            t = ast.copy_location(ast.Compare(left=t.left, ops=[inv[type(t.ops[0])]()], comparators=t.comparators), t)
+        else:
+            return k.undecided("growth-test", G, "guard clause before the growth statements is not a comparison of the fill index with the capacity")
     # the capacity the index is compared with: the tracked variable, or the actual length of a buffer read on the spot
     length_forms = {f"len({dis_buf})", f"{dis_buf}.shape[0]", f"len({al_buf})", f"{al_buf}.shape[0]"}
 
@@ -922,7 +972,7 @@ def _check_append(ctx, k: K, f: FuncInfo, ML: ast.For, FI: ast.If, body: List[as
     k.check("growth-test", okt, t, "buffers grow as soon as the fill index reaches the capacity (so index < capacity at every store)",
             f"growth test `{norm(t)}` lets the fill index reach the capacity before growing: the next store is out of bounds "
             f"(numba does not bounds-check)")
-    gb = G.body
+    gb = growth_body
     add = None
     g_dis = g_al = g_cap = None
     for s in gb:
@@ -966,13 +1016,17 @@ def _check_final(ctx, k: K, f: FuncInfo, ML: ast.For, c2n_name: str, n_name: str
     ivar, dis, al = facts["ivar"], facts["dis"], facts["al"]
     after = body[body.index(ML) + 1:]
     sl = {}
+    # names of the cut results: the buffers themselves (`dis = dis[:k]`) or new names (`kept = dis[:k]`)
+    cut_name = {dis: dis, al: al}
     for s in after:
         if isinstance(s, ast.Assign):
             tg = s.targets[0].elts if isinstance(s.targets[0], ast.Tuple) else [s.targets[0]]
-            vs = s.value.elts if isinstance(s.value, ast.Tuple) else [s.value]
+            vs = s.value.elts if isinstance(s.value, ast.Tuple) and isinstance(s.targets[0], ast.Tuple) else [s.value]
             for t, v in zip(tg, vs):
-                if isinstance(v, ast.Subscript) and isinstance(v.slice, ast.Slice) and norm(v.value) == norm(t) and norm(t) in (dis, al):
-                    sl[norm(t)] = v.slice
+                if isinstance(v, ast.Subscript) and isinstance(v.slice, ast.Slice) and norm(v.value) in (dis, al) and isinstance(t, ast.Name):
+                    sl[norm(v.value)] = v.slice
+                    cut_name[norm(v.value)] = t.id
+
     def upper(sx):
         try:
             return to_lin(expand_locals(f.node, sx.upper, skip=(ivar,))) if sx is not None and sx.lower is None and sx.upper is not None and sx.step is None else None
@@ -992,11 +1046,12 @@ def _check_final(ctx, k: K, f: FuncInfo, ML: ast.For, c2n_name: str, n_name: str
             "both results are cut to [: i - 1]: exactly the last stored candidate (the all-empty tuple) is dropped",
             f"results are cut to disorders[:{ud}] / alignments[:{ua}] instead of [:i-1] on both: the all-empty candidate is kept, "
             f"a real candidate is dropped, or the two arrays get different lengths (the 0.4.1 slicing bug class)")
-    divs = [s for s in after if isinstance(s, ast.AugAssign) and isinstance(s.op, ast.Div) and norm(s.target) == dis]
+    dnames = {dis, cut_name[dis]}
+    divs = [s for s in after if isinstance(s, ast.AugAssign) and isinstance(s.op, ast.Div) and norm(s.target) in dnames]
     divs_all = [s for s in walk_no_nested(f.node) if isinstance(s, ast.AugAssign) and isinstance(s.op, ast.Div)]
     k.check("final-normalise", len(divs) == 1 and len(divs_all) == 1 and norm(divs[0].value) == c2n_name, divs[0] if divs else None,
             "candidate costs are divided exactly once by C(n,2): they become unitary disorders",
             "candidate costs are not divided exactly once by c2n")
     rets = [s for s in after if isinstance(s, ast.Return)]
-    ok = len(rets) == 1 and isinstance(rets[0].value, ast.Tuple) and [norm(x) for x in rets[0].value.elts] == [dis, al]
+    ok = len(rets) == 1 and isinstance(rets[0].value, ast.Tuple) and [norm(x) for x in rets[0].value.elts] == [cut_name[dis], cut_name[al]]
     k.check("final-return", ok, rets[0] if rets else None, "returns (disorders, candidates)", "does not return (disorders, candidates) in this order")
